@@ -34,7 +34,8 @@ BASIC_OK = ('bool', 'char', 'int', 'size_t', 'double', 'string', 'void')
 def profile():
     return replace(c04.profile(), name='mex-executable', operators=False, max_items=5,
                    max_members=6, templates=True, class_template_odds=3,
-                   member_template_odds=5, py_keyword_names=False, favourite_members=())
+                   member_template_odds=5, py_keyword_names=False, favourite_members=(),
+                   identity_methods=True)
 
 
 def normalise(m):
@@ -116,7 +117,24 @@ def normalise(m):
             it = replace(it, name=it.name + 'Fn')
         return it
     m = M.map_items(m, tidy)
-    return M.Module((M.Include('vmock.h'),) + tuple(m.content))
+
+    def distinct_functions(scope):
+        # ... and free functions whose signatures now coincide (or that an omitted default
+        # makes ambiguous), per scope
+        seen, groups, out = set(), {}, []
+        for it in scope.content:
+            if isinstance(it, M.Namespace):
+                it = replace(it, content=distinct_functions(it))
+            elif isinstance(it, M.Func):
+                key = (it.name, tuple(replace(a.type, const=False) if a.type.ptr == ''
+                                      else a.type for a in it.args))
+                if key in seen or G._ambiguous_with_defaults(it.args,
+                                                             groups.setdefault(it.name, [])):
+                    continue
+                seen.add(key)
+            out.append(it)
+        return tuple(out)
+    return M.Module((M.Include('vmock.h'),) + distinct_functions(m))
 
 
 def weight(cname, classes):
@@ -278,7 +296,7 @@ def build_history(m, draw):
             k += 1
         return list(range(n, n - k - 1, -1))
 
-    def returned(res, step):
+    def returned(res, step, same_as=None):
         stores = []
         for r in res:
             if r and r['t'] == 'instance':
@@ -290,6 +308,19 @@ def build_history(m, draw):
                 stores.append(None)
         if any(stores):
             step['stores'] = stores
+            if same_as is not None and stores[0]:
+                step['alias'] = same_as  # a second handle on the object of that handle
+
+    def alias_of(ret, args, cnt, enc, this_name):
+        """The handle whose object the mock library hands back (see cxxmock.alias_arg), None if
+        it returns a fresh object, False if that cannot be predicted."""
+        nm = cxxmock.alias_arg(ret, args, this_name)
+        if nm is None:
+            return None
+        i = [a.name for a in args].index(nm)
+        if i >= cnt or enc[i].get('t') != 'obj':
+            return False
+        return enc[i]['ref']
 
     nsteps = draw(st.integers(4, 26))
     constructible = [mn for mn in order if any(isinstance(x, M.Ctor) and x.template is None
@@ -355,8 +386,11 @@ def build_history(m, draw):
                     continue
                 ent = c['cpp'] + '::' + me.name
                 res = result_of(ent, me.ret)
+                same = alias_of(me.ret, me.args, cnt, got[0], c['decl'].name)
+                if same is False:
+                    continue
                 step = {'kind': 'method', 'obj': var, 'fname': me.name, 'args': got[0]}
-                returned(res, step)
+                returned(res, step, same)
                 add(step, {'trace': {'entity': ent, 'sig': sig_of(me.args),
                                      'this': '{%s}' % var if level == hc else 'any',
                                      'args': got[1]}, 'result': res})
@@ -372,8 +406,11 @@ def build_history(m, draw):
                     continue
                 ent = c['cpp'] + '::' + me.name
                 res = result_of(ent, me.ret)
+                same = alias_of(me.ret, me.args, cnt, got[0], c['decl'].name)
+                if same is False:
+                    continue
                 step = {'kind': 'static', 'cls': level, 'fname': me.name, 'args': got[0]}
-                returned(res, step)
+                returned(res, step, same)
                 add(step, {'trace': {'entity': ent, 'sig': sig_of(me.args), 'this': '-',
                                      'args': got[1]}, 'result': res})
             else:
@@ -412,9 +449,12 @@ def build_history(m, draw):
                 continue
             ent = '::'.join(path + (f.name,))
             res = result_of(ent, f.ret)
+            same = alias_of(f.ret, f.args, cnt, got[0], None)
+            if same is False:
+                continue
             step = {'kind': 'function', 'file': matlab_name(path, f.name), 'fname': f.name,
                     'args': got[0]}
-            returned(res, step)
+            returned(res, step, same)
             add(step, {'trace': {'entity': ent, 'sig': sig_of(f.args), 'this': '-',
                                  'args': got[1]}, 'result': res})
         elif kind == 'delete' and handles:
@@ -513,6 +553,8 @@ def check(case):
     meta = hist['meta']['classes']
     ids = {}
     live = {}   # var -> class (model of live MATLAB handles)
+    obj = {}    # var -> token of the C++ object the handle owns a share of
+    ocls = {}   # token -> class the object was created as
     by_id = {s['id']: s for s in hist['steps']}
     case['_executed'] = 0
     unloaded = False
@@ -529,15 +571,24 @@ def check(case):
         # ---- model update
         if s['kind'] == 'new':
             live[s['store']] = s['cls']
+            obj[s['store']] = s['store']
+            ocls[s['store']] = s['cls']
         elif s['kind'] == 'delete':
             live.pop(s['obj'], None)
+            obj.pop(s['obj'], None)
         elif s['kind'] == 'unload':
             live.clear()
+            obj.clear()
             unloaded = True
         elif s.get('stores') and isinstance(r.get('result'), list):
-            for var, x in zip(s['stores'], r['result']):
+            for k_, (var, x) in enumerate(zip(s['stores'], r['result'])):
                 if var and x['t'] == 'instance':
                     live[var] = x['cls']
+                    if k_ == 0 and s.get('alias') in obj:
+                        obj[var] = obj[s['alias']]
+                    else:
+                        obj[var] = var
+                        ocls[var] = x['cls']
         # ---- trace
         w = exp.get('trace')
         if w is not None:
@@ -592,7 +643,7 @@ def check(case):
                         label, got, want)))
         # ---- ownership
         st_ = r['state']
-        want_live = sum(meta[c]['weight'] for c in live.values())
+        want_live = sum(meta[ocls[t_]]['weight'] for t_ in set(obj.values()))
         if st_['live'] != want_live:
             out.append(Failure('C11.leak-or-early-free' if not unloaded else
                                'C11.unload-leaves-objects',
@@ -624,6 +675,12 @@ def features(case):
     kinds = [s['kind'] for s in steps]
     if any(s.get('stores') for s in steps):
         f.add('object-returned-from-c++')
+    aliased = {s['alias'] for s in steps if s.get('alias')} | \
+        {s['stores'][0] for s in steps if s.get('alias')}
+    if aliased:
+        f.add('two-handles-one-object')
+        if any(s['kind'] == 'delete' and s['obj'] in aliased for s in steps):
+            f.add('delete-one-of-two-handles')
     seen_delete = False
     for s in steps:
         if s['kind'] == 'delete':
